@@ -37,7 +37,7 @@ TIMEOUT = {'quick': 300, 'thorough': 1800}
 NS = {'Message': Message, 'MetaMessage': MetaMessage, 'UnknownMetaMessage': UnknownMetaMessage,
       'MidiTrack': MidiTrack, 'MidiFile': MidiFile}
 TIMES = [0, 1, -3, 10 ** 30, 2 ** 53 + 1, 10 ** 18 + 1, 127, 0.5, 0.1, 2.0, -0.0, 1e-300, 1e300,
-         5e-324, 123456.789, -2.5, 1e16, 3.0]
+         5e-324, 123456.789, -2.5, 1e16, 3.0, 10 ** 400, -(2 ** 1024), 2 ** 1024 - 1]      # (ints beyond the float range too)
 
 
 def nshards(tier):
@@ -53,7 +53,11 @@ def judge_message(ctx, t, a, tm, builder='ctor'):
     case = lambda: {'kind': 'msg', 'type': t, 'attrs': a if len(repr(a)) < 300 else {'data_len': len(a['data'])},  # noqa: E731
                     'time': repr(tm), 'builder': builder}
     if builder == 'ctor':
-        m = Message(t, time=tm, **a)
+        try:
+            m = Message(t, time=tm, **a)
+        except Exception as exc:
+            ctx.fail('from_str(str(m)) == m', f'valid-message-cannot-be-built:{type(exc).__name__}', case, f'{type(exc).__name__}: {exc}')
+            return
         if (len(repr(a)) + len(repr(tm))) % 3 == 0:
             # edits that are rejected, and everyday handling, leave no trace in what the conversions show
             from .. import abuse
